@@ -164,6 +164,10 @@ for _m, _helper, _cls in (("_parse_salt", "_norm_salt", "HasSalt"), ("_parse_rou
         descr="any instance state, incl. a class customised with relaxed=True",
     ))
 
+from contracts import c20_libpass as _lp  # noqa: E402
+
+# libpass reads a bytes hash strictly before parsing it (shared with C20)
+CONTRACTS += [c for c in _lp.CONTRACTS if c.id.startswith("libpass.as_str")]
 BOUNDED = [Bounded("c08", "harness/c08.py", descr="single-edit neighbours of valid hashes, arbitrary strings", timeout=900)]
 
 P = "passlib/handlers/"
